@@ -632,10 +632,16 @@ Handle(e) ==
 
 Init == l = 1 /\ g = G0 /\ viol = {}
 
+(* C13, on every result event of a read-only client: the store counted no mutating request of that client during the *)
+(* step (the count includes requests that are not logged, such as node objects)                                      *)
+RoMutates(e) ==
+  IF Has(e, "c") /\ Has(e, "dm") /\ e.ev # "s3" /\ Get(g.cmode, e.c, "rw") \in {"ro", "hist"} /\ e.dm > 0
+  THEN V("C13", "C13_NoMutation", e, [event |-> e.ev, mutating_requests |-> e.dm]) ELSE {}
+
 Next == /\ l <= Len(Trace)
         /\ LET h == Handle(Trace[l]) IN
            /\ g' = h.g2
-           /\ viol' = viol \cup h.v
+           /\ viol' = viol \cup h.v \cup RoMutates(Trace[l])
         /\ l' = l + 1
 
 Spec == Init /\ [][Next]_vars
